@@ -297,3 +297,25 @@ func VfC02_CaseNames() {
 	}
 	hC02Check(src)
 }
+
+// VfC02_AttrGroupSpellings: an attribute group that repeats attributes in
+// different spellings (`"k"="v"` and `"k" = "v"`, a keyword twice, the same
+// string attribute on two definition lines of the group): whatever the parser
+// merges or drops, it does so in one step - the printed text is a fixpoint.
+//
+//vf:unwind 300
+func VfC02_AttrGroupSpellings() {
+	x := hLetterIn("x", 'a', 'z')
+	kv1, kv2 := "\"k"+x+"\"=\"v\"", "\"k"+x+"\" = \"v\""
+	var src string
+	switch vfChoice("shape", 3) {
+	case 0:
+		src = "attributes #0 = { " + kv1 + " nounwind " + kv2 + " nounwind }\n"
+	case 1:
+		src = "attributes #0 = { " + kv1 + " }\nattributes #0 = { " + kv2 + " \"z\" }\n"
+	default:
+		src = "attributes #0 = { \"" + x + "\" \"" + x + "\"  }\nattributes #0 = { \"" + x + "\"=\"\" }\n"
+	}
+	src = "define void @f() #0 {\n\tret void\n}\n" + src
+	hC02Check(src)
+}
